@@ -588,12 +588,13 @@ impl<'a> TypeConverter<'a> {
         created: wasm::ComponentAnyTypeId,
     ) {
         if let Some((other, orig)) = self.find_owner(referenced) {
-            match *other {
-                Owner::Interface(interface) if owner != *other => {
+            let (other, orig) = (*other, orig.clone());
+            match other {
+                Owner::Interface(interface) if owner != other => {
                     let used = UsedType {
                         interface,
                         name: if name != orig {
-                            Some(orig.to_string())
+                            Some(orig.clone())
                         } else {
                             None
                         },
@@ -609,6 +610,12 @@ impl<'a> TypeConverter<'a> {
                 }
                 _ => {}
             }
+
+            // The created type denotes the owner's item as well: remember it, so
+            // that a later reference to it is still traced back to the owner when
+            // the validator provides no alias link (exported instances, types that
+            // mention a resource).
+            self.owners.entry(created).or_insert((other, orig));
             return;
         }
 
